@@ -36,7 +36,7 @@ LAYER = {1: "container: the inserted style is not the last child of the containe
          3: "found-again: the document's style lookup does not return, under a name an operation returned, the style it was returned for",
          4: "frame: another style was changed or lost",
          5: "fresh-name: the generated name is already the name of a style of that family",
-         6: "merge: the other document was changed",
+         6: "another document (the source of a merge, or a twin document alive in the same process) was changed",
          7: "merge: the result is not the union with the other document's definitions winning",
          8: "reload: the style containers or the lookups differ after save + reload",
          11: "exception: the operation raised on an input of the property's domain",
@@ -181,6 +181,8 @@ def step_term(p):
     if k == 'reload':
         lk = '[' + ';'.join('(%d, %s, %s, %s)' % (f, coq_opt(n, lambda v: '(%s)' % v), coq_loc(b), coq_loc(a)) for f, n, b, a in p['lookups']) + ']'
         return sh.wrap('SReload %s %s %s' % (coq_store(p['pre'], sh), coq_store(p['post'], sh), lk))
+    if k == 'untouched':
+        return sh.wrap('SUntouched %s %s' % (coq_store(p['pre'], sh), coq_store(p['post'], sh)))
     if k == 'found':
         pr = '[' + ';'.join('(%d, (%s), %d, %s)' % (f, n, e, coq_loc(l)) for f, n, e, l in p['promises']) + ']'
         return sh.wrap('SFound %s %s' % (coq_store(p['pre'], sh), pr))
@@ -249,10 +251,22 @@ def drive(odfdo, A, spec, pool):
     doc = odfdo.Document(spec['doc'])
     steps, registry = [], []
     promises = []          # (family string, name string, content id) an operation has returned and nobody redefined since
+    ctx, cur = {}, ['A']   # twin documents: name -> saved context; the current one lives in doc / registry / promises
     queue = [(si, op) for si, op in enumerate(spec['ops'])]
     while queue:
         si, op = queue.pop(0)
         name = op[0]
+        if name == 'on':
+            # ['on', 'B', op]: run op on the twin document B (a second document alive in the same process), come back
+            queue[0:0] = [(si, ['_switch', op[1]]), (si, op[2]), (si, ['_switch', 'A'])]
+            continue
+        if name == '_switch':
+            ctx[cur[0]] = dict(doc=doc, registry=registry, promises=promises, store=A.store(doc)[0])
+            cur[0] = op[1]
+            if cur[0] not in ctx:
+                ctx[cur[0]] = dict(doc=odfdo.Document(spec.get('twin', spec['doc'])), registry=[], promises=[], store=None)
+            doc, registry, promises = ctx[cur[0]]['doc'], ctx[cur[0]]['registry'], ctx[cur[0]]['promises']
+            continue
         pre, _ = A.store(doc)
         nsteps = len(steps); npromised = len(promises); old_promises = list(promises)
         if name == 'adv':
@@ -282,8 +296,12 @@ def drive(odfdo, A, spec, pool):
             continue
         if name == 'insert':
             s = op[1]
-            el = odfdo.Element.from_tag(style_xml(t, s)) if s.get('how', 'xml') == 'xml' else odfdo.Style(s['family'], name=s.get('name'))
-            style_abs = A.entry(el._Element__element)
+            if s.get('how', 'xml') == 'str':
+                el = style_xml(t, s)                      # the XML definition string itself is handed to insert_style
+                style_abs = A.entry(etree.fromstring(el))
+            else:
+                el = odfdo.Element.from_tag(style_xml(t, s)) if s.get('how', 'xml') == 'xml' else odfdo.Style(s['family'], name=s.get('name'))
+                style_abs = A.entry(el._Element__element)
             kw = dict(automatic=op[2] in ('automatic', 'both'), default=op[2] in ('default', 'both'))
             if op[3] is not None: kw['name'] = op[3]
             try:
@@ -422,13 +440,25 @@ def drive(odfdo, A, spec, pool):
                 promises[:] = [q for q in promises if q[1] != table_style_name] + [('table', table_style_name, last['eid_final'])]
             earlier = [q for q in promises if q in old_promises]      # promises made by earlier operations
             if earlier and kind in ('insert', 'merge', 'table', 'pagebreak'):
-                cur, where = A.store(doc)
+                cur_, where = A.store(doc)
                 pr = []
                 for fam, nm, eid in promises:
                     try: loc = locate(where, doc.get_style(fam, nm))
                     except Exception: loc = None
                     pr.append((t['fam_id'][fam], A.name(nm), eid, loc))
-                steps.append((si, dict(kind='found', pre=cur, promises=pr)))
+                steps.append((si, dict(kind='found', pre=cur_, promises=pr)))
+            for other_name, c in ctx.items():
+                if other_name == cur[0] or c['store'] is None: continue
+                now, where_o = A.store(c['doc'])
+                steps.append((si, dict(kind='untouched', pre=c['store'], post=now)))
+                c['store'] = now
+                if c['promises']:
+                    pr = []
+                    for fam, nm, eid in c['promises']:
+                        try: loc = locate(where_o, c['doc'].get_style(fam, nm))
+                        except Exception: loc = None
+                        pr.append((t['fam_id'][fam], A.name(nm), eid, loc))
+                    steps.append((si, dict(kind='found', pre=now, promises=pr, twin=other_name)))
     return steps
 
 
@@ -445,7 +475,8 @@ def shape(p):
     if k == 'table': return (k, sizes, p['tables'][p['tidx']] is None, p['eid_created'] != 0)
     if k == 'pagebreak': return (k, sizes, p['existing_ok'])
     if k == 'reload': return (k, sizes, len(p['lookups']))
-    if k == 'found': return (k, sizes, len(p['promises']), tuple(q[1].split(' ')[0] for q in p['promises']))
+    if k == 'found': return (k, sizes, len(p['promises']), tuple(q[1].split(' ')[0] for q in p['promises']), p.get('twin'))
+    if k == 'untouched': return (k, sizes, p['pre'] == p['post'])
     return (k, sizes)
 
 
@@ -536,6 +567,7 @@ def gen_history(rng, t, templates, samples, names_by_doc):
             elif rng.random() < 0.04:
                 mode = 'both'                               # rejected combination
             name_arg = rng.choice(NAMES + ex[:5]) if rng.random() < 0.15 else None
+            if rng.random() < 0.3: s['how'] = 'str'
             ops.append(['insert', s, mode, name_arg])
         elif r < 0.70: ops.append(['table', rng.randrange(5), rng.random() < 0.5])
         elif r < 0.77: ops.append(['pagebreak'])
@@ -547,6 +579,10 @@ def gen_history(rng, t, templates, samples, names_by_doc):
                      and not (m_ == 'default' and s_['family'] not in t['STD'])]
             ops.append(['merge', other, extra])
         else: ops.append(['reload'])
+    if rng.random() < 0.25:        # a twin document alive in the same process takes some of the operations
+        ops = [['on', 'B', o] if rng.random() < 0.4 else o for o in ops]
+        for o in list(ops):           # the same string definition goes into both documents
+            if o[0] == 'insert' and o[1].get('how') == 'str' and rng.random() < 0.7: ops.append(['on', 'B', o])
     if rng.random() < 0.5: ops.append(['reload'])
     return dict(doc=src, ops=ops, family='random')
 
@@ -590,6 +626,7 @@ def gen_cases(tier, rng, t, templates, samples, names_by_doc):
     cases.append(dict(doc='spreadsheet', ops=[['raw', 1, NTS], ['table', 0, False]], family='number-text-style'))
     cases.append(dict(doc='spreadsheet', ops=[['raw', 1, NTS], ['delete']], family='number-text-style'))
     cases += gen_adversarial(tier, t, templates, samples)
+    cases += gen_twins(tier, t, templates, samples)
     cases += gen_cross_container(tier, t, templates, samples, scan_styles_xml(templates + samples, set(t['STD'])))
     # (c) every document merged into a template of its kind and into itself
     for s in templates + samples:
@@ -663,6 +700,30 @@ def gen_adversarial(tier, t, templates, samples):
                 for off in (0, 1):
                     cases.append(dict(doc=src, ops=[['insert', dict(family=fam, name=None, variant=1, how='xml'), 'automatic', None],
                                                     ['adv', 'auto', how, fam, off, 0], ['adv', 'auto', how, fam, 0, 0], ['reload']], family='adversarial-names'))
+    return cases
+
+
+def gen_twins(tier, t, templates, samples):
+    """style definitions given as XML strings; the same definition inserted more than once (two names / two kinds in one
+    document, and into two documents alive in the same process); add_page_break_style / set_table_displayed on twin
+    documents alternately.  After every operation on one document the other one must be untouched and keep its promises."""
+    cases = []
+    for tpl in templates:
+        cases.append(dict(doc=tpl, ops=[['pagebreak'], ['on', 'B', ['pagebreak']], ['pagebreak'], ['on', 'B', ['pagebreak']], ['reload'], ['on', 'B', ['reload']]], family='twins'))
+        for fam in (('paragraph', 'table-cell', 'font-face', 'list') if tier == 'quick' else sorted(t['FM'])):
+            if fam in SPECIAL and False: continue
+            S = dict(family=fam, name='D1', variant=6, how='str')
+            U = dict(family=fam, name=None, variant=6, how='str')
+            # the same definition string twice in one document under two names, and as two kinds
+            cases.append(dict(doc=tpl, ops=[['insert', S, 'automatic', 'A1'], ['insert', S, 'automatic', 'B1'], ['insert', S, 'common', None], ['insert', S, 'automatic', None], ['reload']], family='repeated-definition'))
+            if fam not in SPECIAL:
+                cases.append(dict(doc=tpl, ops=[['insert', U, 'automatic', None], ['insert', U, 'automatic', None], ['insert', U, 'common', 'C1'], ['reload']], family='repeated-definition'))
+            # ... and into a twin document
+            cases.append(dict(doc=tpl, ops=[['insert', S, 'common', None], ['on', 'B', ['insert', S, 'common', None]], ['on', 'B', ['insert', S, 'automatic', 'Z1']],
+                                            ['insert', S, 'automatic', 'Y1'], ['on', 'B', ['reload']], ['reload']], family='twins'))
+    for src in ['spreadsheet'] + [x for x in samples if x.endswith('.ods')][: (1 if tier == 'quick' else 9)]:
+        cases.append(dict(doc=src, ops=[['table', 0, False], ['on', 'B', ['table', 0, False]], ['table', 0, True], ['on', 'B', ['table', 0, True]],
+                                        ['on', 'B', ['merge', 'spreadsheet', []]], ['reload']], family='twins'))
     return cases
 
 
@@ -750,6 +811,9 @@ def evaluate(specs, tables, pool, tag, nproc=16):
 
 def key_of(code, kind, spec, si, err):
     op = spec['ops'][si]
+    if kind == 'untouched': return "twin-document/changed-by-an-operation-on-the-other-document"
+    if kind == 'found' and spec['ops'][si][0] == 'on': return "twin-document/promise-broken-by-an-operation-on-the-other-document"
+    if op[0] == 'on': op = op[2]
     if op[0] == 'adv': return "adversarial-name/%s-code-%d" % (kind, code)
     if code == 11 and err and "object has no attribute" in err and any(o[0] == 'raw' and 'xml' in o[2] for o in spec['ops'][:si + 1]) \
             or code == 11 and err and "object has no attribute" in err and op[0] == 'merge' and len(op) > 3 and any('xml' in x[1] for x in op[3]):
@@ -836,6 +900,7 @@ def run(tier, seed, replay=None):
     for idx, spec in enumerate(specs):
         fam_hist[spec.get('family', 'corpus')] = fam_hist.get(spec.get('family', 'corpus'), 0) + 1
         for op in spec['ops']:
+            if op[0] == 'on': op = op[2]; op_hist['on-twin'] = op_hist.get('on-twin', 0) + 1
             k = op[0] + ('/' + op[2] if op[0] in ('insert', 'adv') else '')
             op_hist[k] = op_hist.get(k, 0) + 1
         for si, kind, code, err, dg, oc in res[idx]:
